@@ -71,6 +71,12 @@ class Formula(BooleanLogics.Formula):
 
                     self._subformula.append(phi)
                 else:
+                    if (isinstance(phi, Formula) and
+                            sys.modules[phi.__module__] is not Lang):
+                        # a formula of another language, possibly of one
+                        # whose classes derive from those of Lang
+                        phi = phi.cast_to(Lang)
+
                     if not isinstance(phi, FormulaClass):
                         if (isinstance(phi, Lang.Formula) or
                                 not isinstance(phi, Formula)):
